@@ -595,8 +595,9 @@ class CSVWriter extends rbql.RBQLOutputWriter {
                 this.null_in_output = true;
                 out_fields[i] = '';
             } else if (Array.isArray(out_fields[i])) {
-                this.normalize_fields(out_fields[i]);
-                out_fields[i] = out_fields[i].join(this.sub_array_delim);
+                let sub_fields = out_fields[i].slice(); // An array-valued cell may be an object of the input table: work on a copy of it
+                this.normalize_fields(sub_fields);
+                out_fields[i] = sub_fields.join(this.sub_array_delim);
             }
         }
     };
